@@ -277,5 +277,17 @@ func TestVerifC23(t *testing.T) {
 		res := r.BFS(name, func() vx.Sys { return c23New(r, c, name) }, p.depth)
 		t.Logf("C23 %s depth %d: states=%d transitions=%d", name, p.depth, res.States, res.Transitions)
 	}
+	// search from non-initial states (deep scripted pre-states)
+	for _, cn := range vx.Pick(r, []string{"ooo+snap"}, []string{"ooo+snap", "snap"}) {
+		if r.Expired() {
+			r.NotExhaustive("deadline before the non-initial-state search of " + cn)
+			break
+		}
+		c := cfgs[cn]
+		c.Alphabet = "small"
+		name := cn + "@small+starts"
+		res := r.BFSFrom(name, func() vx.Sys { return c23New(r, c, name) }, dbxStarts(c.W), vx.Pick(r, 0, 1))
+		t.Logf("C23 %s: states=%d transitions=%d", name, res.States, res.Transitions)
+	}
 	r.Assume("exemplar restoration from the snapshot is not covered (no exemplars in the dbx alphabet)")
 }
